@@ -136,7 +136,7 @@ func (t *nameTable) of(s string) string {
 	return lib.N(uint64(i))
 }
 
-func term(in Input, outs []Outcome) string {
+func term(in Input, outs []Outcome, sig string) string {
 	t := newTable()
 	z := func(i int) string { return fmt.Sprint(i) } // Z literals (the cases file opens Z_scope)
 	of := func(s string) string {
@@ -170,7 +170,7 @@ func term(in Input, outs []Outcome) string {
 		}
 		return "WCrash"
 	})
-	return lib.App("mk_case", lib.ListOf(t.names, lib.Str), steps, z(skip), obs)
+	return lib.App("mk_case", lib.App("C17_Check.mk_case", lib.ListOf(t.names, lib.Str), steps, z(skip), obs), z(classCode[sig]))
 }
 
 func shapeOf(in Input) string {
@@ -190,6 +190,7 @@ func parentMain() {
 	bi := readBuiltins()
 	out := lib.NewOut(a.Out, "C17")
 	out.PerFile = 250
+	out.Imports = []string{"Base", "C17_CheckK"}
 
 	type pending struct {
 		kind string
@@ -217,7 +218,7 @@ func parentMain() {
 			}
 			last := outs[len(outs)-1]
 			binding := bindingConstraints(in)
-			out.Add(lib.Case{Term: term(in, outs), JSON: map[string]interface{}{"input": in, "observed": outs},
+			out.Add(lib.Case{Term: term(in, outs, sig), JSON: map[string]interface{}{"input": in, "observed": outs},
 				Sig: sig, Kind: t.kind, Shape: shapeOf(in),
 				Nontriv: inDom && binding > 0 && last.Kind == "ok" && len(last.Fired) >= 2})
 			out.Count("pipeline", in.Pipeline)
